@@ -17,7 +17,7 @@ RULE = ('a case = (NaN mask, container kind in {Series, 1-d array, DataFrame, 2-
         'frames to 8x3; thorough: ALL 2^n masks for every n<=10 x all methods x limit in {None,1,2,3}; non-trivial = mask with an interior NaN run and a leading or trailing NaN run, '
         'or an all-NaN row in a frame with a partly-NaN row; distinct = canonical hash')
 ASSUMPTIONS = ['axis is not part of the statement and is not varied', 'numeric constants are combined with limit=None only (pandas counts the limit differently for value fills)',
-               "an all-NaN column is left unchanged by ffill_na / ffill_0 (no 'last valid observation' exists)", "method lists containing ffill_na / ffill_0 are applied to 1-d inputs only",
+               "an all-NaN column is left unchanged by ffill_na / ffill_0 (no 'last valid observation' exists)",
                "the deprecated alias 'pad' is not exercised",
                "in method lists no step that fills the tail (ffill, a constant) precedes ffill_na / ffill_0: whether 'the last valid observation' is then that of the input or of the intermediate result is not settled by the statement (the library uses the input's)"]
 NAN = float('nan')
@@ -264,8 +264,6 @@ def gen_random(rng):
         return c_
     if rng.random() < 0.3:
         method = rng.choice(LISTS)
-        if kind in ('frame', 'arr2') and any(m in ('ffill_na', 'ffill_0') for m in method):
-            method = ['ffill', 'bfill']
     else:
         method = rng.choice(SINGLE)
     limit = rng.choice([None, None, 1, 2, 3])
